@@ -562,9 +562,16 @@ func TestC44(t *testing.T) {
 		}
 	}
 
-	// (i) fresh random recipes
+	// (i) fresh random recipes, (iii) containers/composites through the ledger
+	base := c29Host(t)
 	rapid.Check(t, func(rt *rapid.T) {
 		g := &vgen.G{S: vgen.FromRapid(rt), Cfg: vgen.Config{MaxDepth: 3}}
+		if g.S.Intn(5) == 0 {
+			if msg := c44LedgerRoundTrip(rec, base, g); msg != "" {
+				rt.Fatalf("C44 ledger round trip: %s", msg)
+			}
+			return
+		}
 		if g.S.Intn(3) == 0 {
 			r := g.TypeRecipe(3)
 			feats := map[string]bool{}
